@@ -117,6 +117,19 @@ def run(ctx, rep, tier):
         neg = Adt("Expression", "Operator", [BoxV(Adt("Operator", "Not", [v]), "Rc")])
         one("not%d" % n, neg, assume, lambda m, mk=mk: '(not (s "%s"))' % esc(mk(m)) if m is not None else '(not (s "%s"))' % esc(safe(mk)), [name])
         n += 1
+    # (i'') many resources in one program: identifiers of two digits and more (ten file printers; four matchers before a printer)
+    def chain(texts, opname):
+        ls = [T.leaf(t) for t in texts]
+        cur = ls[0]
+        for l in ls[1:]:
+            cur = T.op(opname, cur, l)
+        return cur
+    for label, tree in (("ten-files", chain(["-fprint F%d" % i for i in range(10)], "List")),
+                        ("matchers-then-file", T.op("And", chain(["-name n%d" % i for i in range(5)], "Or"), T.leaf("-fprint out1")))):
+        findings, info = compare(B, label, tree[0], tree[1])
+        for f in findings[:1]:
+            handle(B, rep, known, [label], tree[1], f)
+        n += 1
     n_leaf = n
     # (ii) operator trees over a leaf alphabet with symbolic constants
     alpha = [l for l in leaves if l[0] in ("-true", "-false", "-executable", "-name foo", "-iname foo", "-name 'f*'", "-uid GreaterThan", "-size LesserThan KiloByte",
